@@ -292,14 +292,14 @@ Inductive tstep (fixed : bool) (t : nat) (stamp : N) (cur : fvec) :
           stamp cur (MkThread rest PIdle) [ERet t o (RList snap)].
 
 Lemma step_shape fixed s t :
-  step fixed s t = s \/
+  (step fixed s t = s /\ thread_done s t = true) \/
   exists th stamp' cur' th' evs nf,
     g_thr s !! t = Some th /\
     tstep fixed t (g_stamp s) (g_cur s) th stamp' cur' th' evs /\
     step fixed s t = MkG stamp' cur' (<[t := th']> (g_thr s)) (g_log s ++ evs) nf.
 Proof.
-  unfold step, set_thr. destruct (g_thr s !! t) as [[prog p]|] eqn:Et; [|left; reflexivity].
-  cbn [t_prog t_pc]. destruct prog as [|o rest]; [left; reflexivity|]. right.
+  unfold step, set_thr, thread_done. destruct (g_thr s !! t) as [[prog p]|] eqn:Et; [|left; split; reflexivity].
+  cbn [t_prog t_pc]. destruct prog as [|o rest]; [left; split; reflexivity|]. right.
   destruct p as [|st snap sticky|snap].
   - destruct (is_writer o) eqn:Ew.
     + eexists _, _, _, _, _, _. split; [reflexivity|]. split; [apply ts_call, Ew|reflexivity].
@@ -387,7 +387,7 @@ Proof. intros H. eapply fv_legal_app; [exact H|]. cbn. auto. Qed.
 Lemma lin_inv_step init s t : lin_inv init s -> lin_inv init (step true s t).
 Proof.
   intros [Hleg Hthr].
-  destruct (step_shape true s t) as [->|(th & stamp' & cur' & th' & evs & nf & Et & Hts & ->)]; [split; assumption|].
+  destruct (step_shape true s t) as [[-> _]|(th & stamp' & cur' & th' & evs & nf & Et & Hts & ->)]; [split; assumption|].
   pose proof (Hthr _ _ Et) as Hpc.
   destruct Hts as [o rest Hw|rest|n rest|o rest Hrd|o rest snap sticky|o rest st snap sticky Hne|o rest snap];
     unfold lin_inv; cbn [g_log g_cur]; rewrite ?lin_hist_app; cbn [lin_hist omap lin_of]; rewrite ?app_nil_r.
@@ -438,7 +438,7 @@ Definition wf_inv (s : gstate) : Prop :=
 Lemma wf_inv_step fixed s t : wf_inv s -> wf_inv (step fixed s t).
 Proof.
   intros [Hth Hlog].
-  destruct (step_shape fixed s t) as [->|(th & stamp' & cur' & th' & evs & nf & Et & Hts & ->)]; [split; assumption|].
+  destruct (step_shape fixed s t) as [[-> _]|(th & stamp' & cur' & th' & evs & nf & Et & Hts & ->)]; [split; assumption|].
   pose proof (Hth _ _ Et) as Hwf.
   assert (Hupd : forall th'', Forall op_wf (t_prog th'') ->
             forall t0 th0, <[t := th'']> (g_thr s) !! t0 = Some th0 -> Forall op_wf (t_prog th0)).
@@ -478,7 +478,7 @@ Proof. rewrite fmap_app, concat_app. f_equal. Qed.
 Lemma log_inv_step fixed progs s t : log_inv progs s -> log_inv progs (step fixed s t).
 Proof.
   intros Hinv.
-  destruct (step_shape fixed s t) as [->|(th & stamp' & cur' & th' & evs & nf & Et & Hts & ->)]; [assumption|].
+  destruct (step_shape fixed s t) as [[-> _]|(th & stamp' & cur' & th' & evs & nf & Et & Hts & ->)]; [assumption|].
   pose proof (tstep_evs_thread _ _ _ _ _ _ _ _ _ Hts) as Hevs.
   intros t0 th0 Hl. cbn [g_thr g_log] in *. rewrite thread_log_app.
   apply list_lookup_insert_Some in Hl as [(-> & <- & _)|[Hne Hl]].
@@ -507,7 +507,7 @@ Lemma exec_length fixed sched : forall s, length (g_thr (exec fixed sched s)) = 
 Proof.
   induction sched as [|t sched IH]; intros s; [reflexivity|]. cbn [exec fold_left]. 
   fold (exec fixed sched (step fixed s t)). rewrite IH.
-  destruct (step_shape fixed s t) as [->|(th & stamp' & cur' & th' & evs & nf & _ & _ & ->)]; [reflexivity|].
+  destruct (step_shape fixed s t) as [[-> _]|(th & stamp' & cur' & th' & evs & nf & _ & _ & ->)]; [reflexivity|].
   cbn [g_thr]. apply insert_length.
 Qed.
 
@@ -621,4 +621,42 @@ Proof.
   intros Hnd Hwf s.
   destruct (linearizable_map init progs sched Hnd Hwf) as [H1 H2].
   split; [exact H1|]. split; [exact H2|]. intros t prog. exact (thread_logs_ok true init progs sched t prog).
+Qed.
+
+(* a thread that is scheduled twice in a row completes its current call:
+   after its own failed compare-and-swap its snapshot is current *)
+Lemma step_thread fixed s t th o rest :
+  g_thr s !! t = Some th -> t_prog th = o :: rest ->
+  exists stamp' cur' th' evs nf,
+    tstep fixed t (g_stamp s) (g_cur s) th stamp' cur' th' evs /\
+    step fixed s t = MkG stamp' cur' (<[t := th']> (g_thr s)) (g_log s ++ evs) nf /\
+    g_thr (step fixed s t) !! t = Some th'.
+Proof.
+  intros Hth Hprog.
+  destruct (step_shape fixed s t) as [[_ Hd]|(th0 & stamp' & cur' & th' & evs & nf & Et & Hts & E)].
+  - unfold thread_done in Hd. rewrite Hth, Hprog in Hd. discriminate.
+  - rewrite Hth in Et. injection Et as <-. exists stamp', cur', th', evs, nf.
+    split; [exact Hts|]. split; [exact E|]. rewrite E. cbn [g_thr].
+    apply list_lookup_insert. eapply lookup_lt_Some, Hth.
+Qed.
+
+Lemma solo_progress fixed s t o rest p :
+  g_thr s !! t = Some (MkThread (o :: rest) p) ->
+  g_thr (step fixed s t) !! t = Some (MkThread rest PIdle) \/
+  g_thr (step fixed (step fixed s t) t) !! t = Some (MkThread rest PIdle).
+Proof.
+  intros Hth.
+  destruct (step_thread fixed s t _ o rest Hth eq_refl) as (st1 & cur1 & th1 & evs1 & nf1 & Hts1 & E1 & Hl1).
+  inversion Hts1; subst; try (left; exact Hl1); right.
+  - (* call of a writer: the next compare-and-swap succeeds *)
+    destruct (step_thread fixed _ t _ o rest Hl1 eq_refl) as (st2 & cur2 & th2 & evs2 & nf2 & Hts2 & _ & Hl2).
+    rewrite E1 in Hts2. cbn [g_stamp g_cur] in Hts2.
+    inversion Hts2; subst; [exact Hl2|congruence].
+  - (* guard taken: iterate *)
+    destruct (step_thread fixed _ t _ FIter rest Hl1 eq_refl) as (st2 & cur2 & th2 & evs2 & nf2 & Hts2 & _ & Hl2).
+    inversion Hts2; subst. exact Hl2.
+  - (* failed compare-and-swap: the retry succeeds *)
+    destruct (step_thread fixed _ t _ o rest Hl1 eq_refl) as (st2 & cur2 & th2 & evs2 & nf2 & Hts2 & _ & Hl2).
+    rewrite E1 in Hts2. cbn [g_stamp g_cur] in Hts2.
+    inversion Hts2; subst; [exact Hl2|congruence].
 Qed.
